@@ -1,6 +1,7 @@
 package main
 
 import (
+	"math"
 	"bytes"
 	"fmt"
 	"os"
@@ -299,6 +300,22 @@ func checkC05(c *Ctx) {
 	}
 	for _, d := range overfullLastBufferDocs() {
 		run("overfull-last-index-buffer", d, false)
+	}
+	// numbers that need every digit when they are printed back (marshalling and the string
+	// conversions are read methods too): 17-digit floats, the int64/uint64 edges
+	for i := 0; i < c.N(60, 600); i++ {
+		var el []string
+		for j := 0; j < 1+r.Intn(8); j++ {
+			switch r.Intn(3) {
+			case 0:
+				el = append(el, fmt.Sprintf("%.17g", math.Float64frombits(r.U64()&^(0x7ff<<52)|uint64(1023-60+r.Intn(130))<<52)))
+			case 1:
+				el = append(el, numBoundary[r.Intn(len(numBoundary))])
+			default:
+				el = append(el, []string{"0.30000000000000004", "1.0000000000000002", "-65.613616999999977", "5e-324", "1.7976931348623157e308", "123456789012345678"}[r.Intn(6)])
+			}
+		}
+		run("numbers-needing-every-digit", []byte("["+strings.Join(el, ",")+"]"), false)
 	}
 	for _, d := range denseThenTail(r) {
 		run("dense-then-tail", d, false)
